@@ -65,6 +65,8 @@ Chains == UNION {[1..n -> Links] : n \in 2..MaxLinks}
 \* two-level enumeration: the theorems are evaluated on the successor states, by the worker threads
 \* chains of four links: binary operators only, over variables (the other flavours and the postfix forms stay at three links)
 Init == chain \in Chains /\ flav \in Flavours /\ (flav \in {"fn", "xf", "wild", "wildn"} => Len(chain) <= 2)
+        \* (a multiplication sign next to a wildcard is not separated by OPTIONAL white space: * * * and *** are different token sequences)
+        /\ (flav \in {"wild", "wildn"} => \A i \in 1..Len(chain) : chain[i] # "*")
         /\ (Len(chain) >= 4 => (flav = "var" /\ \A i \in 1..Len(chain) : chain[i] \in BinOps)) /\ done = FALSE
 Next == ~done /\ done' = TRUE /\ UNCHANGED <<chain, flav>>
 Spec == Init /\ [][Next]_vars
